@@ -24,7 +24,7 @@ while args:
 here = os.getcwd()
 sd = os.path.join(here, 'seeded')
 if not ids:
-    ids = sorted(d for d in os.listdir(sd) if os.path.isdir(os.path.join(sd, d)))
+    ids = sorted(d for d in os.listdir(sd) if os.path.isfile(os.path.join(sd, d, 'meta.json')))
 outp = os.path.join(sd, 'RESULTS.json')
 res = json.load(open(outp)) if os.path.exists(outp) else {}
 env = dict(os.environ, VERIF_ROOT=here)
